@@ -704,7 +704,9 @@ class SDP_ErrorResponse(SDP_PDU):
 
     pdu_id = PduId.SDP_ERROR_RESPONSE
 
-    error_code: ErrorCode = field(metadata=ErrorCode.type_metadata(2))
+    error_code: ErrorCode = field(
+        metadata=ErrorCode.type_metadata(2, byteorder='big')
+    )
 
 
 # -----------------------------------------------------------------------------
